@@ -256,6 +256,51 @@ def _jvpapi3(c0: int, c1: int, c2: int, api: int, d0: bool, d1: bool, d2: bool, 
     return jvp_api(3, [c0, c1, c2], api, [d0, d1, d2], [v0, v1, v2], t0, none1)
 
 
+def linear_container(coefs, api, diff, vals, t0, as_list):
+    """a primitive whose VALUE is a tuple / list (two leaves), registered with def_linear / 'same' / defjvp_argnum, with
+    several arguments differentiated at once: the tangent is the leaf-wise SUM of the per-argument terms, in the
+    output's vector space"""
+    n = len(coefs)
+    mk = list if as_list else tuple
+
+    @primitive
+    def p(*args):
+        return mk([Q(sum(coefs[i] * args[i].v for i in range(n))), Q(sum((i + 2) * coefs[i] * args[i].v for i in range(n)))])
+
+    if api == 0:
+        def_linear(p)
+    elif api == 1:
+        defjvp(p, *["same" for _ in range(n)])
+    else:
+        defjvp_argnum(p, lambda argnum, g, ans, args, kw: mk([Q(coefs[argnum] * g.v), Q((argnum + 2) * coefs[argnum] * g.v)]))
+    consts = [Q(v) for v in vals]
+
+    def f(x):
+        return p(*[x if diff[i] else consts[i] for i in range(n)])
+
+    y, t = make_jvp(f, Q(vals[0]))(Q(t0))
+    if not isinstance(t, mk) or len(t) != 2:
+        return False
+    want0 = want1 = 0
+    for i in range(n):
+        if diff[i]:
+            if api in (0, 1):
+                o0 = sum(coefs[j] * (vals[0] if diff[j] else vals[j]) for j in range(n) if j != i)
+                o1 = sum((j + 2) * coefs[j] * (vals[0] if diff[j] else vals[j]) for j in range(n) if j != i)
+                want0, want1 = want0 + coefs[i] * t0 + o0, want1 + (i + 2) * coefs[i] * t0 + o1
+            else:
+                want0, want1 = want0 + coefs[i] * t0, want1 + (i + 2) * coefs[i] * t0
+    return t[0].v == want0 and t[1].v == want1
+
+
+def _linear_container3(c0: int, c1: int, c2: int, api: int, d0: bool, d1: bool, d2: bool, v0: int, v1: int, v2: int, t0: int, as_list: bool) -> bool:
+    """
+    pre: 0 <= api <= 2 and (d0 or d1 or d2)
+    post: _
+    """
+    return linear_container([c0, c1, c2], api, [d0, d1, d2], [v0, v1, v2], t0, as_list)
+
+
 def two_levels(c0, c1, inner0, x0, y0, m_o, m_i):
     """p(a, b) = c0*a*b ... arguments assigned to the inner or the outer of two nested traces: d/dy [ d/dx p ]"""
     def outer(y):
